@@ -71,9 +71,11 @@ static void checkPublished(const lg::Pair &p, const pub::L &L) {
       bool typeNA = (lf.kind == lg::K_SINT || lf.kind == lg::K_UINT) && !strcmp(in.cls, "NA") && lf.typeBits == f.len;
       if (typeNA) expect = pubNA(f.len, f.sgn);          // "not available" of the parameter's type must be the field's NA
       else if (f.resNum != 1 || f.resExp != 0) {
-        long long code = (long long)((double)v / res);
-        if (code > (long long)pubNA(f.len, f.sgn) - 2) { C.count("published_out_of_range_skipped"); continue; }
-        expect = (u64)code & maskBits(f.len);
+        // integer parameter in a coarser published unit: truncated quotient; a value above the largest valid code
+        // (the three highest codes of an unsigned field are reserved / out of range / NA) must give "out of range"
+        long long top = (long long)pubNA(f.len, f.sgn) - 3;
+        if (v < 0 || (unsigned long long)v > (unsigned long long)top * (unsigned long long)f.resNum) expect = pubNA(f.len, f.sgn) - 1;
+        else expect = (u64)(v / f.resNum) & maskBits(f.len);
       } else expect = (u64)v & maskBits(f.len);
     }
     bool ok; u64 got = bitsAt(bytes, f.off, f.len, ok);
@@ -150,6 +152,21 @@ int main(int argc, char **argv) {
       for (int i = 0; i < p.nf; i++) {
         if (!p.f[i].inSetter) continue;
         for (Cell &c : specials(p, p.f[i], r)) { std::vector<Cell> t = base; t[i] = c; runSet(p, t); }
+      }
+    }
+    // integer parameters whose published unit is coarser (heartbeat interval: 10 ms per bit): codes over the whole
+    // published range, exact multiples and values just below the next multiple (truncation)
+    for (int k = 0; k < pub::layouts[li].n; k++) {
+      const pub::F &f = pub::layouts[li].f[k];
+      if (!f.param || f.resExp != 0 || f.resNum == 1) continue;
+      for (int i = 0; i < p.nf; i++) {
+        if (strcmp(p.f[i].name, f.param) || (p.f[i].kind != lg::K_UINT && p.f[i].kind != lg::K_SINT)) continue;
+        long long top = (long long)pubNA(f.len, f.sgn) - 3;
+        std::vector<long long> codes = {1, 2, 3, 255, 256, 1000, top, top - 1, top + 1, top + 2};
+        for (int q = 0; q < (C.thorough ? 200 : 30); q++) codes.push_back(r.range(0, top));
+        for (long long c : codes) for (long long add : {0LL, (long long)f.resNum - 1}) {
+          std::vector<Cell> t = base; Cell x; x.v.i = c * f.resNum + add; x.code = x.v.i; x.cls = "rand"; t[i] = x; runSet(p, t);
+        }
       }
     }
     for (const char *cls : {"NA", "zero", "max", "min", "neg", "big"}) {
